@@ -2,6 +2,8 @@ import Nri.Model.LibMem
 import Nri.Proofs.LibMem
 import Nri.Proofs.LibMemInv
 import Nri.Proofs.LibMemTrack
+import Nri.Proofs.LibMemUpd
+import Nri.Proofs.LibMemFit
 /-!
 C07 "a request with strict type preference is assigned only nodes of the requested types":
 bit-level facts about `zoneType`, `byTypes`, `newCloseNodesOfType` and `expand`.  Core Lean only.
@@ -185,5 +187,220 @@ theorem zoneType_nodes (s s' : St) (h : s'.nodes = s.nodes) (z : Mask) : s'.zone
 theorem expand_nodes (s s' : St) (h : s'.nodes = s.nodes) (z : Mask) (ts : Nat) : s'.expand z ts = s.expand z ts := by
   unfold St.expand St.newCloseNodesOfType St.byTypes St.all St.node?
   rw [h]
+
+/-! ### the invariant and its preservation by overcommit resolution -/
+
+/-- every strict request sits on nodes of its requested types only -/
+def StrictInv (s : St) : Prop := ∀ q ∈ s.reqs, q.strict = true → msub (s.zoneType q.zone) q.types = true
+
+def SU (s : St) : Prop := NodesUniq s ∧ StrictInv s
+
+theorem nodesUniq_of_nodes (s s' : St) (h : s'.nodes = s.nodes) (hu : NodesUniq s) : NodesUniq s' := by
+  unfold NodesUniq at *; rw [h]; exact hu
+
+theorem su_move (nodes0 : Mask) (s : St) (r : Req) (nodes : Mask) (h : SU s) (hm : MoveOK s nodes0 r nodes) :
+    SU (s.zoneMove (r.zone ||| nodes) r.id) := by
+  have hn : (s.zoneMove (r.zone ||| nodes) r.id).nodes = s.nodes := zoneMove_nodes _ _ _
+  refine ⟨nodesUniq_of_nodes s _ hn h.1, ?_⟩
+  intro q' hq' hs
+  rw [zoneType_nodes s _ hn]
+  rcases zoneMove_reqs_mem s hm.ids r hm.mem _ q' hq' with ⟨hq, _⟩ | e
+  · exact h.2 q' hq hs
+  · subst e
+    obtain ⟨s0, extra, ty, hn0, hexp, hst⟩ := hm.strictOk
+    have hty := hst hs
+    have hu0 : NodesUniq s0 := nodesUniq_of_nodes s s0 hn0 h.1
+    have := expand_zoneType s0 hu0 r.zone (s0.zoneType r.zone ||| extra)
+    rw [hexp] at this
+    show msub (s.zoneType (r.zone ||| nodes)) r.types = true
+    rw [hty, ← zoneType_nodes s s0 hn0]
+    exact this
+
+theorem handleOvercommit_su (s : St) (nodes0 : Mask) (hnd : IdsNodup s) (h : SU s) : SU (s.handleOvercommit nodes0).1 :=
+  (handleOvercommit_pres nodes0 SU (fun _ _ h => ⟨h.1, h.2⟩) (fun s r nodes h hm => su_move nodes0 s r nodes h hm) s hnd h).2
+
+/-! ### the initial zone of a strict request -/
+
+theorem findInitialZone_strict (s : St) (hu : NodesUniq s) (r : Req) (hs : r.strict = true) (z : Mask)
+    (h : s.findInitialZone r = .ok z) : msub (s.zoneType z) r.types = true := by
+  unfold St.findInitialZone at h
+  simp only [hs, if_true] at h
+  by_cases hmiss : mdiff r.types (s.zoneType (r.aff &&& s.all)) ≠ 0
+  · rw [if_pos hmiss] at h
+    split at h
+    · cases h
+    · simp only [Except.ok.injEq] at h
+      rw [← h]
+      exact zoneType_sub_of_byTypes s hu _ _ (msub_and_right _ _)
+  · rw [if_neg hmiss] at h
+    split at h
+    · cases h
+    · simp only [Except.ok.injEq] at h
+      rw [← h]
+      exact zoneType_sub_of_byTypes s hu _ _ (msub_and_right _ _)
+
+theorem ensureNormalLoop_types (s : St) (hu : NodesUniq s) (types T : Nat) (hT : msub types T = true) :
+    ∀ (fuel : Nat) (zone z' : Mask), msub (s.zoneType zone) T = true →
+      s.ensureNormalLoop types fuel zone = some z' → msub (s.zoneType z') T = true := by
+  intro fuel
+  induction fuel with
+  | zero => intro zone z' _ h; simp [St.ensureNormalLoop] at h
+  | succ n ih =>
+    intro zone z' hz h
+    unfold St.ensureNormalLoop at h
+    simp only [] at h
+    have hgrow : msub (s.zoneType (zone ||| (s.expand zone types).1)) T = true := by
+      rw [zoneType_or]
+      exact msub_or_of _ _ _ hz (msub_trans'' (expand_types s hu zone types).1 (msub_trans'' (expand_types s hu zone types).2 hT))
+    split at h
+    · cases h
+    · split at h
+      · simp only [Option.some.injEq] at h
+        rw [← h]; exact hgrow
+      · exact ih _ _ hgrow h
+
+theorem ensureNormalMemory_strict (s : St) (hu : NodesUniq s) (r : Req) (hs : r.strict = true)
+    (hz : msub (s.zoneType r.zone) r.types = true) (z : Mask) (t : Nat)
+    (h : s.ensureNormalMemory r = .ok (z, t)) : msub (s.zoneType z) t = true := by
+  unfold St.ensureNormalMemory at h
+  split at h
+  · simp only [Except.ok.injEq, Prod.mk.injEq] at h
+    rw [← h.1, ← h.2]; exact hz
+  · simp only [] at h
+    split at h
+    · cases h
+    · rename_i types ht
+      split at h
+      · rename_i zone hloop
+        simp only [Except.ok.injEq, Prod.mk.injEq] at h
+        rw [← h.1, ← h.2]
+        refine ensureNormalLoop_types s hu types (r.types ||| types) ?_ 65 r.zone zone (msub_or_right types hz) hloop
+        rw [Nat.or_comm]; exact msub_or_self types r.types
+      · cases h
+
+/-! ### `Allocate`, `Realloc` -/
+
+theorem allocate_ok_strict (s : St) (hu : NodesUniq s) (r r' : Req) (h : (s.allocate r).2 = .ok r') :
+    r'.strict = r.strict ∧ (r'.strict = true → msub (s.zoneType r'.zone) r'.types = true) := by
+  unfold St.allocate at h
+  cases hv : s.validateRequest r with
+  | error e => simp [hv] at h
+  | ok t1 =>
+    simp only [hv] at h
+    cases hf : s.findInitialZone { r with types := t1 } with
+    | error e => simp [hf] at h
+    | ok z1 =>
+      simp only [hf] at h
+      cases hn : s.ensureNormalMemory { r with types := t1, zone := z1 } with
+      | error e => simp [hn] at h
+      | ok zt =>
+        obtain ⟨z2, t2⟩ := zt
+        simp only [hn] at h
+        cases hh : (({ s.startJournal with reqs := s.startJournal.reqs ++ [{ ({ r with types := t2, zone := z2 } : Req) with zone := 0 }] } : St).zoneAssign z2 r.id).handleOvercommit z2 with
+        | mk s2 oe =>
+          simp only [hh] at h
+          cases oe with
+          | some e => simp only [] at h; cases h
+          | none =>
+            simp only [Except.ok.injEq] at h
+            subst h
+            refine ⟨rfl, ?_⟩
+            intro hs
+            have hs' : r.strict = true := hs
+            have h1 := findInitialZone_strict s hu { r with types := t1 } hs' z1 hf
+            exact ensureNormalMemory_strict s hu { r with types := t1, zone := z1 } hs' h1 z2 t2 hn
+
+theorem allocate_su (s : St) (hw : WF s) (h : SU s) (r r' : Req) (ha : (s.allocate r).2 = .ok r') :
+    SU (s.allocate r).1 := by
+  obtain ⟨hnone, _, _, _, _, heq⟩ := allocate_ok_eq s r r' ha
+  obtain ⟨_, hst⟩ := allocate_ok_strict s h.1 r r' ha
+  rw [heq]
+  have hbnd : IdsNodup (withNew s r') := withNew_ids_nodup s hw r' hnone
+  have hb0 : IdsNodup (withNew s r').startJournal := hbnd
+  have hmem0 : ({ r' with zone := 0 } : Req) ∈ (withNew s r').startJournal.reqs := by
+    simp [withNew, St.startJournal]
+  have hback : ({ ({ r' with zone := 0 } : Req) with zone := r'.zone } : Req) = r' := by cases r'; rfl
+  have hn : ((withNew s r').startJournal.zoneMove r'.zone r'.id).nodes = s.nodes := by rw [zoneMove_nodes]; rfl
+  have hnd1 : IdsNodup ((withNew s r').startJournal.zoneMove r'.zone r'.id) := by
+    unfold IdsNodup; rw [zoneMove_ids]; exact hbnd
+  apply handleOvercommit_su _ _ hnd1
+  refine ⟨nodesUniq_of_nodes s _ hn h.1, ?_⟩
+  intro q' hq' hs
+  rw [zoneType_nodes s _ hn]
+  have := zoneMove_reqs_mem (withNew s r').startJournal hb0 { r' with zone := 0 } hmem0 r'.zone q' hq'
+  rw [hback] at this
+  rcases this with ⟨hq, hid⟩ | e
+  · simp only [St.startJournal, withNew, List.mem_append, List.mem_singleton] at hq
+    rcases hq with hq | hq
+    · exact h.2 q' hq hs
+    · subst hq; exact absurd rfl hid
+  · subst e; exact hst hs
+
+theorem su_of_reqs_eq (s s' : St) (h : SU s) (hr : s'.reqs = s.reqs) (hn : s'.nodes = s.nodes) : SU s' := by
+  refine ⟨nodesUniq_of_nodes s s' hn h.1, ?_⟩
+  intro q hq hs
+  rw [hr] at hq
+  rw [zoneType_nodes s s' hn]
+  exact h.2 q hq hs
+
+theorem Allocate_su (s : St) (hw : WF s) (h : SU s) (r : Req) (res : Result) (hok : (s.Allocate r).2 = .ok res) :
+    SU (s.Allocate r).1 := by
+  obtain ⟨r', ha, hreqs, hnodes⟩ := Allocate_ok_shape s r res hok
+  exact su_of_reqs_eq (s.allocate r).1 _ (allocate_su s hw h r r' ha) hreqs hnodes
+
+/-- re-allocating a NON-strict request keeps the strict-type invariant of everybody else -/
+theorem Realloc_su (s : St) (hw : WF s) (h : SU s) (id : String) (nodes : Mask) (types : Nat) (res : Result)
+    (hok : (s.Realloc id nodes types).2 = .ok res) (hns : ∀ q, s.req? id = some q → q.strict = false) :
+    SU (s.Realloc id nodes types).1 := by
+  have hnd : IdsNodup s := hw.ids
+  rcases Realloc_ok_shape2 s id nodes types res hok with e | ⟨r, target, t, S4, hr, _, hne, _, hfin, hreqs, _, hnodes⟩
+  · rw [e]; exact h
+  · have hrm : r ∈ s.reqs := List.mem_of_find?_eq_some hr
+    have hrid : r.id = id := by have := List.find?_some hr; simpa using this
+    have hrs : r.strict = false := hns r hr
+    subst hrid
+    have hb0 : IdsNodup s.startJournal := hnd
+    have hn : (s.startJournal.zoneMove target r.id).nodes = s.nodes := by rw [zoneMove_nodes]; rfl
+    have hnd1 : IdsNodup (s.startJournal.zoneMove target r.id) := by
+      unfold IdsNodup; rw [zoneMove_ids]; exact hnd
+    have h0 : SU (s.startJournal.zoneMove target r.id) := by
+      refine ⟨nodesUniq_of_nodes s _ hn h.1, ?_⟩
+      intro q' hq' hs
+      rw [zoneType_nodes s _ hn]
+      rcases zoneMove_reqs_mem s.startJournal hb0 r hrm target q' hq' with ⟨hq, _⟩ | e
+      · exact h.2 q' hq hs
+      · subst e; rw [hrs] at hs; cases hs
+    have h1 := handleOvercommit_su _ target hnd1 h0
+    -- every request of the final internal state is a request of `s` with another zone
+    have hg0 : Good s s.startJournal := good_start s hw.journal hw.ids
+    obtain ⟨⟨Z, j, hreqsG, _⟩, _, _⟩ := handleOvercommit_good s _ (zoneMove_good s _ hg0 target hne r.id) target
+    rw [hfin]
+    refine ⟨nodesUniq_of_nodes _ _ (by show S4.nodes = _; exact hnodes) h1.1, ?_⟩
+    intro q hq hs
+    have hq' : q ∈ S4.reqs := hq
+    rw [hreqs] at hq'
+    obtain ⟨q0, hq0, e⟩ := List.mem_map.1 hq'
+    have hzt : (S4.cleanupUnusedZones).zoneType q.zone = (((s.startJournal.zoneMove target r.id).handleOvercommit target).1).zoneType q.zone :=
+      zoneType_nodes _ _ (by show S4.nodes = _; exact hnodes) _
+    rw [hzt]
+    by_cases hid : (q0.id == r.id) = true
+    · -- the re-allocated request itself: not strict
+      exfalso
+      have hq0r : q0.id = r.id := by simpa using hid
+      have hq0' := hq0
+      rw [hreqsG] at hq0'
+      obtain ⟨qb, hqb, eb⟩ := List.mem_map.1 hq0'
+      have hqbid : qb.id = r.id := by rw [← hq0r, ← eb]; rfl
+      have hqbr := req?_of_mem_nodup s hnd qb hqb
+      rw [hqbid, hr] at hqbr
+      have hqbe : qb = r := (Option.some.inj hqbr).symm
+      have hstr : q0.strict = r.strict := by rw [← eb, hqbe]; rfl
+      rw [← e] at hs
+      unfold addTypes at hs
+      simp only [hid, if_true] at hs
+      rw [hstr, hrs] at hs; cases hs
+    · have hqq : q = q0 := by rw [← e]; unfold addTypes; simp [hid]
+      rw [hqq] at hs ⊢
+      exact h1.2 q0 hq0 hs
 
 end Nri.LibMem
